@@ -556,11 +556,27 @@ def check_netcdf(ctx, rng, idx, tmp, cases, lazy_cases, search=False):
                     except Exception:  # noqa: BLE001
                         return "(err library)"
 
-            def run(key_sexp, np_key, reshape=None):
+            def run(key_sexp, np_key, reshape=None, as_tuple=False):
                 tgt = lv
                 if reshape is not None:
                     tgt = LazyVariable(nv, v["name"], lv.path, path)
-                    tgt.reshape(*reshape)
+                    if as_tuple:
+                        tgt.reshape(tuple(reshape))          # numpy's other calling convention
+                    else:
+                        tgt.reshape(*reshape)
+                    # direct oracle: a whole-variable read after reshape is the library's read, reshaped
+                    try:
+                        got_r = np.asarray(tgt[np_key])
+                        obs = (list(got_r.shape), bits(got_r)[:8])
+                    except Exception as e:  # noqa: BLE001
+                        obs = "escaped:" + type(e).__name__
+                    with netCDF4.Dataset(path, "r") as s3:
+                        s3.set_auto_maskandscale(False)
+                        want_r = np.asarray(s3[vid][np_key]).reshape(tuple(reshape))
+                    if obs != (list(want_r.shape), bits(want_r)[:8]):
+                        ctx.oracle_fail("whole-variable read after LazyVariable.reshape differs from the library's read, reshaped",
+                                        dict(case0, variable=vid, reshape=list(reshape), as_tuple=as_tuple), obs,
+                                        (list(want_r.shape), bits(want_r)[:8]))
                 try:
                     a = np.asarray(tgt[np_key])
                     impl = "(ok (%s) (%s))" % (" ".join(map(str, a.shape)), " ".join(map(str, bits(a))))
@@ -587,6 +603,23 @@ def check_netcdf(ctx, rng, idx, tmp, cases, lazy_cases, search=False):
                 if n > 0:
                     run("(" + " ".join("(%d %d %d)" % t for t in full) + ")", tuple(slice(a, b, k) for a, b, k in full),
                         reshape=[n])
+                    run("(" + " ".join("(%d %d %d)" % t for t in full) + ")", tuple(slice(a, b, k) for a, b, k in full),
+                        reshape=[n] if len(v["shape"]) > 1 else [1, n], as_tuple=True)
+                # bookkeeping of the object: dtype / ndim / shape / size / len, before and after reshape calls
+                ops = [rng.choice([[n], [1, n], list(v["shape"])]) for _ in range(rng.randint(0, 3))] if n > 0 else []
+                forms = [rng.choice(["ints", "seq"]) for _ in ops]
+                t2 = LazyVariable(nv, v["name"], lv.path, path)
+                for o, fm in zip(ops, forms):
+                    t2 = t2.reshape(*o) if fm == "ints" else t2.reshape(tuple(o))
+                try:
+                    ln = "(ok %d)" % len(t2)
+                except TypeError:
+                    ln = "(err typeError)"
+                impl_b = "(%s %d (%s) (%s) %d %s)" % (hs(np.dtype(t2.dtype).str.lstrip("<>|=")), t2.ndim, " ".join(map(str, t2.shape)),
+                                                      " ".join(map(str, t2._reshape)), int(t2.size), ln)
+                lazy_cases.append(("fh-lazyobj %s (%s) %d (%s)" % (hs(v["ty"]), " ".join(map(str, v["shape"])), len(v["dims"]),
+                                                                  " ".join("(%s %s)" % (fm, " ".join(map(str, o))) for o, fm in zip(ops, forms))),
+                                   impl_b, dict(case0, variable=vid, ops=ops)))
 
 
 # ------------------------------------------------------------------------------------------------
